@@ -1161,7 +1161,7 @@ func (i *interpreter) itoaSym(sv symVal) value {
 // parseSym: strconv.Parse{Float,Int,Uint}/Atoi of a symbolic string with
 // concrete base and bit size.
 //
-// Exact whenever the string has at most two distinct symbolic bytes (any
+// Exact whenever the string has at most three distinct symbolic bytes (any
 // length): every instantiation of those bytes (over their recorded domains,
 // or all 256 values) is pushed through the real strconv function natively and
 // verdict and value become an ite-chain over the accepted instantiations.
@@ -1192,9 +1192,13 @@ func (i *interpreter) parseSym(fr *frame, fn string, s symStr, k types.BasicKind
 
 // parseEntry: one accepted instantiation of the symbolic bytes and its value.
 type parseEntry struct {
-	vals [2]byte
+	vals [maxExactParseSyms]byte
 	bits uint64
 }
+
+// maxExactParseSyms: strings with at most this many distinct symbolic bytes are parsed exactly
+// (256^3 native calls per table at worst, once per pattern).
+const maxExactParseSyms = 3
 
 var (
 	parseTabMu sync.Mutex
@@ -1219,7 +1223,7 @@ func parseNative(fn, s string, base, bits int) (uint64, bool) {
 	return 0, false
 }
 
-// exactParse: exact verdict and value when at most two distinct symbolic
+// exactParse: exact verdict and value when at most three distinct symbolic
 // bytes occur in s (exact=false otherwise).
 func (i *interpreter) exactParse(fn string, s symStr, k types.BasicKind, base, bits int) (okT, valT *sym.Term, exact bool) {
 	c := i.ctx()
@@ -1239,7 +1243,7 @@ func (i *interpreter) exactParse(fn string, s symStr, k types.BasicKind, base, b
 				}
 			}
 			if idx < 0 {
-				if len(syms) == 2 {
+				if len(syms) == maxExactParseSyms {
 					return nil, nil, false
 				}
 				syms = append(syms, b.t)
@@ -1276,7 +1280,7 @@ func (i *interpreter) exactParse(fn string, s symStr, k types.BasicKind, base, b
 	parseTabMu.Lock()
 	tab, ok := parseTabs[key]
 	if !ok {
-		var vals [2]byte
+		var vals [maxExactParseSyms]byte
 		var rec func(q int)
 		rec = func(q int) {
 			if q == len(syms) {
